@@ -4,8 +4,8 @@ package main
 // templates distinguish (pure / impure / coroutine × status / value / nothing ×
 // no / refined / pointer / io arguments × with and without suspension points),
 // bodies that return ok / note / suspension / error on command, and a small
-// bytecode interpreter `vm?` over the built-in reader/writer methods and
-// `io_limit`. Compiled from the working tree's wuffs-c on every run.
+// bytecode interpreter `vm?` over the built-in reader/writer methods,
+// `io_limit` and a private helper that is handed both buffers. Compiled from the working tree's wuffs-c on every run.
 
 const probeWuffs = `pub status "#probe error"
 pub status "@probe note"
@@ -169,9 +169,21 @@ pub func thing.vm?(dst: base.io_writer, src: base.io_reader, prog: roslice base.
             }
         } else if op == 14 {
             k = args.dst.limited_copy_u32_from_reader!(up_to: 3, r: args.src)
+        } else if op == 15 {
+            k = this.helper!(dst: args.dst, src: args.src)
+        } else if op == 16 {
+            io_limit (io: args.src, limit: l1) {
+                k = this.helper!(dst: args.dst, src: args.src)
+            }
         }
     }
     this.pc = 0
+}
+
+pri func thing.helper!(dst: base.io_writer, src: base.io_reader) base.u32 {
+    var n : base.u32
+    n = args.dst.limited_copy_u32_from_reader!(up_to: 2, r: args.src)
+    return n
 }
 `
 
